@@ -16,7 +16,10 @@ func (db *redisDB) NewBatch() database.Batch {
 }
 
 func (b *batch) Put(key, value []byte) error {
-	return b.pipeline.Set(string(key), value, 0).Err()
+	// the pipeline keeps its arguments until Exec: do not retain the caller's buffer
+	copied := make([]byte, len(value))
+	copy(copied, value)
+	return b.pipeline.Set(string(key), copied, 0).Err()
 }
 
 func (b *batch) Delete(key []byte) error {
